@@ -1,7 +1,10 @@
 (* C13: no client input can crash the server or leave a request unanswered.
-   PROOF HALF ONLY: statements about the model coq/Sys/PanicSites.v (session / hub routing of every
-   message kind, the modelled panic sites, configurations as explicit parameters).  Panic-freedom of
-   unmodelled Go code is NOT proved here; it is tested by the fuzz half of the check.
+   PROOF HALF ONLY: statements about the models coq/Sys/PanicSites.v (session / hub routing of every
+   message kind, the modelled panic sites, configurations as explicit parameters), coq/Sys/DefAccess.v
+   (the in-topic default-access site: getDefaultAccess / Topic.accessFor and the handlers that reach it)
+   and coq/Pure/Drafty.v (message content rendered into notification previews: the Drafty span pipeline).
+   Panic-freedom of Go code outside these models is NOT proved here; it is tested by the fuzz half of
+   the check.
 
    [handle rp c st f]: outcome of one wire frame [f] in state [st] under configuration [c];
    [rp = no_repairs] is the code as it is, [rp = all_repairs] the code after findings/C13_*.diff. *)
@@ -114,3 +117,72 @@ Example c13_wf_example : state_wf st_att = true /\ state_wf st_root_p2p = true /
 Proof. vm_compute. repeat split. Qed.
 Example c13_bad_example : bad_request st_hi (with_topic KGet s_me [] 0%Z false [] 0 true []) = true.
 Proof. reflexivity. Qed.
+
+(* ================= message content rendered into notification previews (coq/Pure/Drafty.v) ================= *)
+(* [Drafty.to_tree true] = toTree as it is (server/drafty/drafty.go), from the decoded document on; Go int
+   additions of client integers wrap at 64 bits; every slice / index expression has an explicit Panic
+   outcome; forEach runs on fuel.  The statements hold for EVERY decoded document: all integers, any
+   number of spans and entities, any nesting, any text (incl. no text: nil grapheme container). *)
+Require Tinode.Pure.Drafty Tinode.Pure.DraftyProofs.
+Open Scope Z_scope.
+
+(* toTree never panics and its recursion forEach never runs out of fuel *)
+Theorem c13_drafty_never_panics :
+  forall doc, (forall site, Drafty.to_tree true doc <> Drafty.Panic site) /\ Drafty.to_tree true doc <> Drafty.OutOfFuel.
+Proof. intros doc. exact (DraftyProofs.safe_not_panic _ (DraftyProofs.to_tree_safe doc)). Qed.
+Print Assumptions c13_drafty_never_panics.
+
+(* forEach itself: on ANY list of spans that passed the range check (in any order, sorted or not), from any
+   start >= 0 to any end within the text, it terminates with fuel = S (number of spans) and does not panic *)
+Theorem c13_drafty_for_each_total :
+  forall g start end_ spans, DraftyProofs.gcs_wf g -> 0 <= start -> end_ <= Drafty.g_length g ->
+    Forall (DraftyProofs.span_ok (Drafty.g_length g)) spans ->
+    exists nodes, Drafty.for_each (S (length spans)) g start end_ spans = Drafty.Ok nodes.
+Proof.
+  intros g start end_ spans Hg Hs He Hok.
+  destruct (DraftyProofs.for_each_ok (S (length spans)) g start end_ spans Hg (le_n _) Hs He Hok) as [nodes [E _]]. eauto.
+Qed.
+Print Assumptions c13_drafty_for_each_total.
+
+(* the container built by prepareGraphemes satisfies the invariant the slices rely on *)
+Theorem c13_drafty_container_wf : forall doc, DraftyProofs.gcs_wf (Drafty.d_gc doc).
+Proof. exact DraftyProofs.d_gc_wf. Qed.
+Print Assumptions c13_drafty_container_wf.
+
+(* PlainText (up to TrimSpace) and Preview (up to copyLight / json.Marshal), for every preview length that is a Go int *)
+Theorem c13_drafty_plain_text_never_panics :
+  forall doc, (forall site, Drafty.plain_text true doc <> Drafty.Panic site) /\ Drafty.plain_text true doc <> Drafty.OutOfFuel.
+Proof. intros doc. exact (DraftyProofs.safe_not_panic _ (DraftyProofs.plain_text_safe doc)). Qed.
+Print Assumptions c13_drafty_plain_text_never_panics.
+
+Theorem c13_drafty_preview_never_panics :
+  forall doc max_len, max_len < Drafty.two63 ->
+    (forall site, Drafty.preview true max_len doc <> Drafty.Panic site) /\ Drafty.preview true max_len doc <> Drafty.OutOfFuel.
+Proof. intros doc max_len H. exact (DraftyProofs.safe_not_panic _ (DraftyProofs.preview_safe max_len doc H)). Qed.
+Print Assumptions c13_drafty_preview_never_panics.
+
+(* the range check before /repo commit 6cc931e ("s.at < -1 || s.end > textLen" only) *)
+Definition c13_drafty_unrepaired_statement : Prop := forall doc site, Drafty.to_tree false doc <> Drafty.Panic site.
+
+(* refuted: {"txt":"hello","fmt":[{"at":4611686018427387904,"len":4611686018427387904,"tp":"ST"}]}: at+len wraps to -2^63,
+   passes the check, and forEach slices the text up to 2^62 *)
+Theorem c13_drafty_unrepaired_refuted : ~ c13_drafty_unrepaired_statement.
+Proof. intros H. exact (H Drafty.doc_overflow Drafty.site_sizes_index DraftyProofs.unrepaired_panics). Qed.
+Print Assumptions c13_drafty_unrepaired_refuted.
+
+(* ... and the overflow is the only trigger: when no at+len leaves the int range the old check behaves as the new one *)
+Theorem c13_drafty_unrepaired_partial :
+  forall doc, DraftyProofs.no_overflow doc ->
+    (forall site, Drafty.to_tree false doc <> Drafty.Panic site) /\ Drafty.to_tree false doc <> Drafty.OutOfFuel.
+Proof. intros doc H. rewrite (DraftyProofs.unrepaired_same doc H). exact (DraftyProofs.safe_not_panic _ (DraftyProofs.to_tree_safe doc)). Qed.
+Print Assumptions c13_drafty_unrepaired_partial.
+
+(* the model computes: nested spans, an attachment with entity data, a preview cut at 3 graphemes *)
+Example c13_drafty_example :
+  Drafty.plain_text true Drafty.doc_nested
+    = Drafty.Ok [91;70;73;76;69;32;39;102;39;93;42;104;95;101;108;95;108;111;42]%N      (* [FILE 'f']*h_el_lo* *)
+  /\ DraftyProofs.no_overflow Drafty.doc_nested.
+Proof.
+  split; [vm_compute; reflexivity|]. intros i Hi. cbn in Hi.
+  repeat (destruct Hi as [<- | Hi]; [vm_compute; split; [discriminate|reflexivity]|]). destruct Hi.
+Qed.
